@@ -64,6 +64,17 @@ var idMutations = []struct {
 	{"id-nul", "a\x00b", false}, {"id-50-mixed", strOf(25, "A_") /* 50 */, true}, {"id-51-mixed", strOf(25, "A_") + "-", false},
 }
 
+// over-long ids of every size class, in particular lengths that are small again modulo 2^8 / 2^16
+func init() {
+	for _, n := range []int{52, 64, 100, 255, 256, 257, 280, 306, 307, 511, 512, 540, 1024, 4096, 65535, 65536, 65537, 65566, 65586} {
+		idMutations = append(idMutations, struct {
+			name  string
+			id    string
+			valid bool
+		}{fmt.Sprintf("id-%d-chars", n), strOf(n, "a"), false})
+	}
+}
+
 // every ASCII character outside [A-Za-z0-9_-] (and a few non-ASCII ones) must be refused inside an id
 func init() {
 	for ch := 0; ch < 128; ch++ {
@@ -158,6 +169,14 @@ func serviceMutations() []mut {
 		mut{"service-type-1", true, func(m map[string]interface{}) { m["type"] = "t" }},
 		mut{"service-type-30", true, func(m map[string]interface{}) { m["type"] = strOf(30, "t") }},
 		mut{"service-type-31", false, func(m map[string]interface{}) { m["type"] = strOf(31, "t") }},
+		mut{"service-type-32", false, func(m map[string]interface{}) { m["type"] = strOf(32, "t") }},
+		mut{"service-type-255", false, func(m map[string]interface{}) { m["type"] = strOf(255, "t") }},
+		mut{"service-type-256", false, func(m map[string]interface{}) { m["type"] = strOf(256, "t") }},
+		mut{"service-type-270", false, func(m map[string]interface{}) { m["type"] = strOf(270, "t") }},
+		mut{"service-type-286", false, func(m map[string]interface{}) { m["type"] = strOf(286, "t") }},
+		mut{"service-type-512", false, func(m map[string]interface{}) { m["type"] = strOf(512, "t") }},
+		mut{"service-type-65536", false, func(m map[string]interface{}) { m["type"] = strOf(65536, "t") }},
+		mut{"service-type-65546", false, func(m map[string]interface{}) { m["type"] = strOf(65546, "t") }},
 		mut{"service-endpoint-missing", false, func(m map[string]interface{}) { delete(m, "serviceEndpoint") }},
 		mut{"service-endpoint-null", false, func(m map[string]interface{}) { m["serviceEndpoint"] = nil }},
 		mut{"service-endpoint-empty-string", false, func(m map[string]interface{}) { m["serviceEndpoint"] = "" }},
